@@ -109,13 +109,14 @@ def stateOf (j : Json) : Except String DState := do
   let flagOpen ← jBool j "flagOpen"
   let now ← jInt j "now"
   let price ← jRat j "price"
+  let priceDec ← jBool j "priceDec"
   pure { cash := cash, positions := positions, book := book, wallet := wallet, allowNeg := allowNeg, actions := [],
-         cache := cache, flagOpen := flagOpen, now := now, price := price }
+         cache := cache, flagOpen := flagOpen, now := now, price := price, priceDec := priceDec }
 
 def stateJ (s : DState) : Json :=
   Json.mkObj [("cash", ratJ s.cash), ("positions", .arr (s.positions.map posJ).toArray),
     ("book", .arr (s.book.map instrJ).toArray), ("wallet", walletJ s.wallet), ("allowNeg", .bool s.allowNeg),
-    ("cache", optBalJ s.cache), ("flagOpen", .bool s.flagOpen), ("now", intJ s.now), ("price", ratJ s.price)]
+    ("cache", optBalJ s.cache), ("flagOpen", .bool s.flagOpen), ("now", intJ s.now), ("price", ratJ s.price), ("priceDec", .bool s.priceDec)]
 
 def fillJ (f : Fill) : Json := .arr #[ratJ f.price, ratJ f.amount]
 
@@ -183,21 +184,28 @@ def stepH : JHandler := fun j => do
   let (o, s') := step (dctxOf j) (cfgOf j) s op
   pure (answer o s')
 
-/-- C16: the bar loop.  Each bar: `{"now","flagOpen","book","price","ops":[…]}` -/
-def barOf (j : Json) : Except String Bar := do
+/-- C16: the bar loop.  `books` is a list of books, each bar `{"now","flagOpen","book":<index>,"price","priceDec","ops":[…]}` -/
+def barOf (books : Array (List Instr)) (j : Json) : Except String Bar := do
   let now ← jInt j "now"
   let fo ← jBool j "flagOpen"
-  let book ← bookOf j "book"
+  let bi ← jNat j "book"
+  let book ← match books[bi]? with
+    | some b => pure b
+    | none => throw s!"book index {bi}"
   let price ← jRat j "price"
+  let priceDec ← jBool j "priceDec"
   let ops ← (← jArr j "ops").toList.mapM opOf
-  pure { now := now, flagOpen := fo, book := book, price := price, ops := ops }
+  pure { now := now, flagOpen := fo, book := book, price := price, priceDec := priceDec, ops := ops }
 
 def barsH : JHandler := fun j => do
   let s ← stateOf (← jObj j "state")
-  let bars ← (← jArr j "bars").toList.mapM barOf
+  let books ← (← jArr j "books").mapM (fun b => match b with
+    | .arr a => a.toList.mapM instrOf
+    | _ => throw "books entry")
+  let bars ← (← jArr j "bars").toList.mapM (barOf books)
   let cx := dctxOf j
   let c := cfgOf j
-  -- per bar: outcomes of the ops, state after update, reported balance
+  -- per bar: outcomes of the ops, state after update (without the book), appended actions, reported balance
   let rec go (s : DState) (bs : List Bar) (acc : Array Json) : Array Json :=
     match bs with
     | [] => acc
@@ -206,10 +214,13 @@ def barsH : JHandler := fun j => do
       let item := Json.mkObj [("outcomes", .arr (r.outcomes.map (fun o => match o with
                       | .ok _ => Json.str "ok"
                       | .error e => Json.str e.cls)).toArray),
-                    ("state", stateJ r.state), ("actions", .arr (r.state.actions.map actionJ).toArray),
+                    ("state", stateJ { r.state with book := [] }), ("actions", .arr (r.state.actions.map actionJ).toArray),
                     ("balance", optBalJ r.balance)]
       go { r.state with actions := [] } bs (acc.push item)
-  pure (Json.mkObj [("bars", .arr (go s bars #[]))])
+  let s0 := match bars with
+    | [] => s
+    | b :: _ => runInit cx c s b
+  pure (Json.mkObj [("bars", .arr (go s0 bars #[]))])
 
 /-- `round_decimal`, `repr` helpers exposed for direct differential tests -/
 def roundDecH : JHandler := fun j => do
